@@ -2,7 +2,8 @@
 //! record) enumerate EVERY truncation offset, EVERY read-cut offset (error and EOF), EVERY
 //! write-error offset and EVERY single-bit flip of the encoding (all bits when the encoding is at
 //! most 128 bytes long; otherwise every bit of the first 4 and last 16 bytes and of the first 16
-//! payload bytes, plus 64 seeded interior bits).
+//! payload bytes, plus 64 seeded interior bits), and EVERY value (0..=255) of each of the first
+//! two bytes (tag / header / length bytes).
 
 use crate::arms::{self, Framing};
 use crate::gen::{self, Restrict};
@@ -80,6 +81,14 @@ pub fn sweep_plans(seed: u64, restrict: &Restrict) -> SweepSet {
         for bit in 0..8 {
             let mut p = base.clone();
             p.medium.push(MFault::Flip { at, bit });
+            plans.push(p);
+        }
+    }
+    // every value of the first two bytes (tag / header / length-of-length / first length byte)
+    for at in 0..len.min(2) {
+        for byte in 0..=255u8 {
+            let mut p = base.clone();
+            p.medium.push(MFault::Sub { at, byte });
             plans.push(p);
         }
     }
